@@ -109,6 +109,9 @@ pub enum Case {
     FlatHist { now: u64, init: FlatInit, ops: Vec<FlatOp> },
     TieredHist { now: u64, init: TieredInit, ops: Vec<TieredOp> },
     Leaf { stage: Option<u32>, sender: String, alloc: Option<u32> },
+    /// a factory-created Merkle vending minter (variant 4 / 5 of w_sale) with a Merkle whitelist
+    /// (flat or one-stage tiered) over `entries`; `sender` mints presenting entry `proof_of`'s proof
+    Mint { variant: usize, tiered: bool, entries: Vec<(Option<u32>, String, Option<u32>)>, sender: String, stage: Option<u32>, alloc: Option<u32>, proof_of: usize, label: String },
 }
 
 fn kind(c: &Case) -> &'static str {
@@ -121,6 +124,7 @@ fn kind(c: &Case) -> &'static str {
         Case::FlatHist { .. } => "flat-history",
         Case::TieredHist { .. } => "tiered-history",
         Case::Leaf { .. } => "leaf-format",
+        Case::Mint { .. } => "minter-mint-with-proof",
     }
 }
 
@@ -550,6 +554,66 @@ fn run_case(w: &mut World, c: &Case) -> Outcome {
             );
             Outcome { coq, viol, nontrivial: inst.is_ok() && (any_ok || ops.is_empty()), hist, observed: format!("instantiate {:?}", inst.as_ref().map(|a| a.to_string())), steps }
         }
+        Case::Mint { variant, tiered, entries, sender, stage, alloc, proof_of, label } => {
+            use crate::w_sale::{SaleCfg, SaleWorld, WlKind};
+            let mut cfg = SaleCfg::basic(*variant);
+            cfg.wl = WlKind::None;
+            cfg.num_tokens = 20;
+            let mut sw = SaleWorld::new(cfg).expect("sale world");
+            let t0 = sw.t0;
+            let leaves: Vec<String> = entries.iter().map(|(st, a, al)| leaf_string(*st, a, *al)).collect();
+            let b = build_tree(*tiered, &leaves, None);
+            let (ws, we) = (t0 + 1000 * SEC, t0 + 2000 * SEC);
+            let price = json!({"denom": NATIVE, "amount": "60"});
+            let wl_limit = 2u32;
+            let msg = if *tiered {
+                json!({"stages": [{"name": "s1", "start_time": ws.to_string(), "end_time": we.to_string(), "mint_price": price,
+                                   "per_address_limit": wl_limit, "mint_count_limit": null}],
+                       "merkle_roots": [b.root_hex()], "merkle_tree_uris": null, "admins": [CREATOR], "admins_mutable": true})
+            } else {
+                json!({"merkle_root": b.root_hex(), "merkle_tree_uri": null, "start_time": ws.to_string(), "end_time": we.to_string(),
+                       "mint_price": price, "per_address_limit": wl_limit, "admins": [CREATOR], "admins_mutable": true})
+            };
+            let wl = sw.make_whitelist_raw(if *tiered { "tiered-merkle" } else { "merkle" }, &msg, FEE).expect("merkle whitelist");
+            let minter = sw.minter.clone();
+            chain::exec(&mut sw.app, CREATOR, &minter, &json!({"set_whitelist": {"whitelist": wl.to_string()}}), &[]).expect("set_whitelist");
+            chain::set_time(&mut sw.app, (ws + we) / 2);
+            chain::mint_coins(&mut sw.app, sender, 1_000_000, NATIVE);
+            let proof = b.proof_hex(*proof_of);
+            let r = chain::exec(
+                &mut sw.app,
+                sender,
+                &minter,
+                &json!({"mint": {"stage": stage, "proof_hashes": proof, "allocation": alloc}}),
+                &[coin(60, NATIVE)],
+            );
+            let composed = leaf_string(*stage, sender, *alloc);
+            let listed = leaves.iter().any(|l| *l == composed);
+            if !listed && r.is_ok() {
+                viol.push((
+                    "C14:minter-foreign-proof-accepted".to_string(),
+                    format!("{} minted with a proof although \"{}\" is not a leaf of the whitelist tree ({})", sender, composed, label),
+                ));
+            }
+            if label == "own" && *alloc != Some(0) && r.is_err() {
+                viol.push(("C14:minter-own-proof-rejected".to_string(), format!("{} with its own entry and proof was rejected: {:?}", sender, r.as_ref().err())));
+            }
+            let t = fold_table(*tiered, &composed, &proof);
+            let coq = format!(
+                "CMint {} {} {} {} {} {} {} {} {}",
+                coq_table(&t),
+                coq_bool(*tiered),
+                coq_str(&b.root_hex()),
+                coq_str(sender),
+                coq_opt_n(stage.map(|x| x as u64)),
+                coq_opt_n(alloc.map(|x| x as u64)),
+                coq_strs(&proof),
+                wl_limit,
+                coq_bool(r.is_ok())
+            );
+            hist.push(format!("minter{}:{}:{}:{}", variant, if *tiered { "tiered" } else { "flat" }, label, if r.is_ok() { "ok" } else { "err" }));
+            Outcome { coq, viol, nontrivial: true, hist, observed: format!("{:?}", r.as_ref().map(|_| "minted").map_err(|e| e.chars().take(160).collect::<String>())), steps: 3 }
+        }
         Case::Leaf { stage, sender, alloc } => {
             let s = leaf_string(*stage, sender, *alloc);
             let coq = format!(
@@ -921,6 +985,49 @@ fn gen_cases(a: &Args) -> Vec<Case> {
         cases.push(Case::Leaf { stage: Some(x), sender: s.clone(), alloc: None });
     }
     cases.push(Case::Leaf { stage: None, sender: "addr0001".into(), alloc: None });
+
+    // ---- minter side: a proof issued for one address is useless to another
+    for variant in [4usize, 5] {
+        for tiered in [false, true] {
+            let a: Vec<String> = (0..5u64).map(|i| stars_addr(i, 900 + variant as u64)).collect();
+            let out = stars_addr(77, 901);
+            // (stage, address, allocation) entries in every arity
+            let entries: Vec<(Option<u32>, String, Option<u32>)> = vec![
+                (Some(1), a[0].clone(), Some(3)),
+                (None, a[1].clone(), Some(10)),
+                (Some(2), a[2].clone(), None),
+                (None, a[3].clone(), None),
+                (Some(1), a[4].clone(), Some(0)),
+            ];
+            let mut push = |label: &str, sender: &str, stage: Option<u32>, alloc: Option<u32>, proof_of: usize| {
+                cases.push(Case::Mint { variant, tiered, entries: entries.clone(), sender: sender.to_string(), stage, alloc, proof_of, label: label.to_string() });
+            };
+            for (i, (st, ad, al)) in entries.iter().enumerate() {
+                push("own", ad, *st, *al, i);
+            }
+            // B presents A's proof with A's stage/allocation; the outsider does the same
+            push("proof-of-A-presented-by-B", &a[1], Some(1), Some(3), 0);
+            push("proof-of-A-presented-by-outsider", &out, Some(1), Some(3), 0);
+            push("proof-of-A-presented-by-outsider", &out, None, None, 3);
+            // A claims a larger allocation / another stage / drops a component, with its own proof
+            push("A-claims-larger-allocation", &a[0], Some(1), Some(4), 0);
+            push("A-claims-other-stage", &a[0], Some(2), Some(3), 0);
+            push("A-drops-allocation", &a[0], Some(1), None, 0);
+            push("A-drops-stage", &a[0], None, Some(3), 0);
+            push("A-adds-allocation", &a[3], None, Some(1), 3);
+            push("A-swaps-stage-and-allocation", &a[0], Some(3), Some(1), 0);
+            // right entry, another entry's proof
+            push("own-entry-other-proof", &a[1], None, Some(10), 2);
+        }
+    }
+    // the stated assumption of leaf_binds_sender (equal address lengths) is needed: with the
+    // mock chain's free-form addresses, "buyer11" can present the proof of ("buyer1", 15) as
+    // ("buyer11", 5) -- the composed strings are identical.  Recorded, not a violation.
+    cases.push(Case::Mint {
+        variant: 4, tiered: false,
+        entries: vec![(None, "buyer1".into(), Some(15)), (None, "buyer2".into(), Some(1))],
+        sender: "buyer11".into(), stage: None, alloc: Some(5), proof_of: 0, label: "caveat-different-length-address".into(),
+    });
 
     // ---- instantiate probes and execute histories
     cases.extend(flat_hist_cases(a, &mut rng));
